@@ -404,6 +404,15 @@ def nilCfgCase (impl : String) : Verdict :=
   mk impl model [("no_panic", !((impl.splitOn "PANIC").length > 1 || (impl.splitOn "HANG").length > 1)),
                  ("misconfigured_server_refuses_and_shuts_down", impl == model)]
 
+/-- `listen <network>`: ListenAndServe end to end over the loopback - a request gets an authentic Access-Accept from the
+    address it was sent to (a datagram that is no RADIUS packet having been dropped before it), Shutdown returns nil
+    and ListenAndServe returns ErrServerShutdown.  (What Serve does on the socket is the scenarios' business; this
+    case is about the socket being opened on `Addr` / `Network`, served, and closed.) -/
+def listenCase (impl : String) : Verdict :=
+  let model := "reply=auth=true:code=2:id-matches=true handled=yes shutdown=nil ret=shutdown"
+  mk impl model [("no_panic", !((impl.splitOn "PANIC").length > 1 || (impl.splitOn "CRASH").length > 1)),
+                 ("listen_and_serve_serves_on_its_address_until_shutdown", impl == model)]
+
 /-- `finishes n`: n DIFFERENT requests in flight on one Serve call, their handlers return at the same instant
     (forty rounds): each is served exactly once, nothing crashes (the table of requests in flight is written by n
     goroutines at once), Shutdown returns nil -/
@@ -423,6 +432,7 @@ def c07 (op : String) (args : List String) (impl : String) : Verdict :=
   match op with
   | "downs" => downsCase args impl
   | "nilcfg" => nilCfgCase impl
+  | "listen" => listenCase impl
   | "finishes" => finishesCase args impl
   | "scenario" => scenarioCase args impl
   | _ => bad s!"op:{op}"
@@ -444,6 +454,7 @@ def dupsCase (args : List String) (impl : String) : Verdict :=
 def c06 (op : String) (args : List String) (impl : String) : Verdict :=
   match op with
   | "nilcfg" => nilCfgCase impl
+  | "listen" => listenCase impl
   | "dups" => dupsCase args impl
   | "finishes" => finishesCase args impl
   | "scenario" => scenarioCase args impl
